@@ -188,6 +188,7 @@ type Scenario struct {
 	Note    string        `json:"note,omitempty"`
 	Iso     *IsoCase      `json:"iso,omitempty"`
 	Readd   *ReaddCase    `json:"readd,omitempty"`
+	Untouched *UntouchedCase `json:"untouched,omitempty"`
 	Threads int           `json:"threads,omitempty"`
 }
 
